@@ -920,7 +920,17 @@ def rule_offset_division(ctx):
             if call_name(e) == 'abs' and len(e.args) == 1:
                 return iv_eval(e, env)
             return None
-        if isinstance(e, (ast.BoolOp, ast.Compare, ast.IfExp, ast.Tuple)):
+        if isinstance(e, ast.IfExp):
+            ev(e.test, env)
+            a = ev(e.body, refine(e.test, env, True))
+            b = ev(e.orelse, refine(e.test, env, False))
+            if a is None or b is None:
+                return None
+            return Iv(min(a.lo, b.lo), max(a.hi, b.hi))
+        if isinstance(e, ast.UnaryOp) and isinstance(e.op, ast.USub):
+            a = ev(e.operand, env)
+            return None if a is None else Iv(-a.hi, -a.lo)
+        if isinstance(e, (ast.BoolOp, ast.Compare, ast.Tuple)):
             for x in ast.iter_child_nodes(e):
                 if isinstance(x, ast.expr):
                     ev(x, env)
